@@ -8,6 +8,7 @@ import (
 	"path"
 	"time"
 	"bytes"
+	"unsafe"
 	unix "syscall"
 	"potano.layercake/fs"
 	"potano.layercake/defaults"
@@ -188,7 +189,7 @@ func devMajorMinor(rdev uint64) (major, minor uint32) {
 
 func getXattrs(filename string) map[string]string {
 	namebuf, err := readXattrData(func (buf []byte) (int, error) {
-		return unix.Listxattr(filename, buf)
+		return llistxattr(filename, buf)
 	})
 	if err != nil {
 		return nil
@@ -200,7 +201,7 @@ func getXattrs(filename string) map[string]string {
 		}
 		name := string(nm)
 		value, err := readXattrData(func (buf []byte) (int, error) {
-			return unix.Getxattr(filename, name, buf)
+			return lgetxattr(filename, name, buf)
 		})
 		if err != nil {
 			continue
@@ -208,6 +209,49 @@ func getXattrs(filename string) map[string]string {
 		xattrs[name] = string(value)
 	}
 	return xattrs
+}
+
+
+// llistxattr(2) and lgetxattr(2): like Listxattr and Getxattr of package syscall but they do
+// not follow a symbolic link, so that a symlink entry records its own attributes rather than
+// those of the object it points to
+func llistxattr(path string, dest []byte) (int, error) {
+	pathPtr, err := unix.BytePtrFromString(path)
+	if err != nil {
+		return 0, err
+	}
+	var destPtr unsafe.Pointer
+	if len(dest) > 0 {
+		destPtr = unsafe.Pointer(&dest[0])
+	}
+	sz, _, errno := unix.Syscall(unix.SYS_LLISTXATTR, uintptr(unsafe.Pointer(pathPtr)),
+		uintptr(destPtr), uintptr(len(dest)))
+	if errno != 0 {
+		return 0, errno
+	}
+	return int(sz), nil
+}
+
+
+func lgetxattr(path, attr string, dest []byte) (int, error) {
+	pathPtr, err := unix.BytePtrFromString(path)
+	if err != nil {
+		return 0, err
+	}
+	attrPtr, err := unix.BytePtrFromString(attr)
+	if err != nil {
+		return 0, err
+	}
+	var destPtr unsafe.Pointer
+	if len(dest) > 0 {
+		destPtr = unsafe.Pointer(&dest[0])
+	}
+	sz, _, errno := unix.Syscall6(unix.SYS_LGETXATTR, uintptr(unsafe.Pointer(pathPtr)),
+		uintptr(unsafe.Pointer(attrPtr)), uintptr(destPtr), uintptr(len(dest)), 0, 0)
+	if errno != 0 {
+		return 0, errno
+	}
+	return int(sz), nil
 }
 
 
